@@ -59,7 +59,8 @@ def functions():
 def tasks(tier):
     return [("loop", n, k) for n in (1, 2, 3) for k in (0, 1, 2, 3)] + [("request", 0), ("request", 1), ("connectors",), ("frame-rule",),
                                                                        ("constraints", "ice40"), ("constraints", "ecp5"),
-                                                                       ("constraints", "gowin"), ("constraints-names",), ("clocks",)]
+                                                                       ("constraints", "gowin"), ("constraints-names",), ("clocks",), ("attrs",)] + [
+        ("constraints", kind, hz) for kind in ("ice40", "ecp5") for hz in (12_500_000, 74_250_000, 32_768, 999_999, 100_000_000)]
 
 
 def canaries(tier):
@@ -352,11 +353,11 @@ def unit_connectors():
             "bounded": [{"name": "connector pin resolution (string/dict, chained)", "bound": "listed tables", "cases": cases, "failures": fails}]}
 
 
-def _platform(kind):
+def _platform(kind, clk_hz=12_000_000):
     from amaranth.build.dsl import Resource, Pins, PinsN, DiffPairs, Clock, Attrs, Subsignal, Connector
     from amaranth.hdl import Period
     resources = [
-        Resource("clk", 0, Pins("21", dir="i"), Clock(Period(MHz=12))),
+        Resource("clk", 0, Pins("21", dir="i"), Clock(Period(Hz=clk_hz))),
         Resource("led", 0, Pins("11 12 13", dir="o")),
         Resource("spi", 0, Subsignal("cs", PinsN("31", dir="o")), Subsignal("d", Pins("32 33", dir="io"))),
         Resource("pm", 0, Pins("1 3", dir="o", conn=("pmod", 0))),
@@ -386,14 +387,14 @@ def _platform(kind):
     return Plat, fname
 
 
-def unit_constraints(kind, names_case=False):
+def unit_constraints(kind, names_case=False, clk_hz=12_000_000):
     import re
     from amaranth.hdl import Module, Elaboratable
     from amaranth.lib import io
     cases = fails = 0
     bad = None
     try:
-        Plat, fname = _platform(kind)
+        Plat, fname = _platform(kind, clk_hz)
         plat = Plat(toolchain={"ice40": "IceStorm", "ecp5": "Trellis", "gowin": "Apicula"}[kind]) if kind != "gowin" else Plat(toolchain="Apicula")
     except Exception as e:
         return {"task": f"constraints[{kind}]", "paths": 0, "solver_s": 0.0, "obligations": [],
@@ -502,21 +503,21 @@ def unit_constraints(kind, names_case=False):
     cases += 1
     if kind == "ice40":
         lines = re.findall(r"set_frequency (\S+) ([0-9.]+)", text)
-        clk_ok = len(lines) == 1 and lines[0][0] == "clk_0__io" and abs(float(lines[0][1]) - 12.0) < 1e-3
+        clk_ok = len(lines) == 1 and lines[0][0] == "clk_0__io" and abs(float(lines[0][1]) * 1e6 - clk_hz) <= 1e-6 * clk_hz
     elif kind == "ecp5":
         lines = re.findall(r'FREQUENCY PORT "([^"]+)" ([0-9.]+) HZ', text)
-        clk_ok = len(lines) == 1 and lines[0][0] == "clk_0__io" and abs(float(lines[0][1]) - 12e6) < 1e3
+        clk_ok = len(lines) == 1 and lines[0][0] == "clk_0__io" and abs(float(lines[0][1]) - clk_hz) <= 1e-6 * clk_hz
     else:
         lines, clk_ok = [], True          # the Gowin templates put clocks in a separate .sdc that is not rendered for this flow
     if not clk_ok:
         fails += 1
-        bad = bad or {"clock constraint lines": lines, "expected": "exactly one, clk_0__io at 12 MHz"}
+        bad = bad or {"clock constraint lines": lines, "declared clock": f"clk_0__io at {clk_hz} Hz", "expected": "exactly one line, on clk_0__io, with the declared frequency"}
     obs = []
     if fails:
-        obs.append({"name": f"constraints[{kind}{',names' if names_case else ''}]::each-port-bit-its-declared-pin-once", "kind": "bounded",
+        obs.append({"name": f"constraints[{kind}{',names' if names_case else ''},clk={clk_hz}Hz]::each-port-bit-its-declared-pin-once-and-clock-its-period", "kind": "bounded",
                     "status": "refuted", "backend": "cpython", "time_s": 0.0,
                     "failing_input": {"platform": kind, **bad, "how": "plat.build(design, do_build=False); constraint file vs RTLIL top-level ports"}})
-    return {"task": f"constraints[{kind}]", "paths": 0, "solver_s": 0.0, "obligations": obs,
+    return {"task": f"constraints[{kind},{clk_hz}Hz]", "paths": 0, "solver_s": 0.0, "obligations": obs,
             "bounded": [{"name": f"constraint file ({kind})", "bound": "one design with subsignals, connector pins, a name clash" if names_case else "one design", "cases": cases, "failures": fails}]}
 
 
@@ -557,6 +558,49 @@ def unit_clocks():
                      "cases": cases, "failures": 0 if ok else 1}]}
 
 
+def unit_attrs():
+    """resource attributes: a request never raises for a legal description with callable attributes (also ones returning
+    None, which means 'omit'), every pin of the port carries exactly the evaluated attributes of its component (outer
+    attributes inherited, inner ones overriding), callables are evaluated for the manager the request is made on, and the
+    resource DEFINITION -- shared between platform instances -- is left unchanged"""
+    from amaranth.build.dsl import Resource, Subsignal, Pins, Attrs
+    from amaranth.build.res import ResourceManager
+    cases = 0
+    bad = None
+
+    def mk():
+        return [Resource("led", 0,
+                         Subsignal("a", Pins("1 2", dir="o"), Attrs(S=lambda p: "s", T=lambda p: None, A="inner")),
+                         Subsignal("b", Pins("3", dir="i")),
+                         Attrs(A="x", B=lambda p: None, C=lambda p: f"c{p.tag}")),
+                Resource("btn", 0, Pins("4", dir="i"), Attrs(ONLY=lambda p: None))]
+    resources = mk()
+    snapshot = [repr(r.attrs) + repr([repr(getattr(io_, "attrs", None)) for io_ in r.ios]) for r in resources]
+    for tag in ("one", "two"):
+        cases += 1
+        rm = ResourceManager(resources, [])
+        rm.tag = tag
+        try:
+            led = rm.request("led", 0, dir="-")
+            btn = rm.request("btn", 0, dir="-")
+        except Exception as e:
+            bad = bad or {"manager": tag, "request raised": repr(e)[:200]}
+            continue
+        got = {"a": [dict(md.attrs) for md in led.a.io.metadata], "b": [dict(md.attrs) for md in led.b.io.metadata],
+               "btn": [dict(md.attrs) for md in btn.io.metadata]}
+        want = {"a": [{"A": "inner", "C": f"c{tag}", "S": "s"}] * 2, "b": [{"A": "x", "C": f"c{tag}"}], "btn": [{}]}
+        if got != want:
+            bad = bad or {"manager": tag, "pin attributes": got, "expected": want}
+        now = [repr(r.attrs) + repr([repr(getattr(io_, "attrs", None)) for io_ in r.ios]) for r in resources]
+        if now != snapshot:
+            bad = bad or {"manager": tag, "what": "the resource definition was modified by the request", "before": snapshot, "after": now}
+    ok = bad is None
+    return {"task": "attrs", "paths": cases, "solver_s": 0.0, "obligations": [
+        {"name": "attrs::evaluated-per-manager-definition-unchanged", "kind": "bounded", "status": "proved" if ok else "refuted", "backend": "cpython",
+         "time_s": 0.0, **({} if ok else {"failing_input": {**bad, "how": "ResourceManager(resources, []).request(...) twice on the same resource definitions"}})}],
+        "bounded": [{"name": "resource attributes", "bound": "one table, two managers on the same definitions", "cases": cases, "failures": 0 if ok else 1}]}
+
+
 def unit_frame_rule():
     """Failure frame of request(): the call of resolve() sits in a `try` whose handler puts back copies of
     `_phys_reqd`, `_clocks`, `_io_clocks`, `_pins` taken before the call, and re-raises; `_requested` is written
@@ -594,6 +638,8 @@ def run_task(task):
         return unit_frame_rule()
     if k == "clocks":
         return unit_clocks()
+    if k == "attrs":
+        return unit_attrs()
     if k == "loop":
         return unit_loop(task[1], task[2])
     if k == "request":
@@ -601,7 +647,7 @@ def run_task(task):
     if k == "connectors":
         return unit_connectors()
     if k == "constraints":
-        return unit_constraints(task[1])
+        return unit_constraints(task[1], clk_hz=task[2] if len(task) > 2 else 12_000_000)
     if k == "constraints-names":
         return unit_constraints("ice40", names_case=True)
     if k == "canary-loop":
